@@ -285,6 +285,14 @@ func solveObligation(j *oblResult, smtDir string, timeoutS int, all bool, seed i
 			j.Cls = "violated"
 		default:
 			j.Cls = "undecided"
+			// Quantified hypotheses keep solvers from answering `sat`. A model of the query WITHOUT them is
+			// only a candidate, but it gives the replay something concrete to try on the real code.
+			rq := j.Fn.Script.RelaxedQuery(o.nd, o.na, extra, get)
+			rr := Solve(smtDir, o.Name+".relaxed", rq, 5, false, seed)
+			if rr.Status == "sat" && len(rr.Model) > 0 {
+				j.R.Model = rr.Model
+				j.R.Output += "\n[candidate model from the quantifier-free relaxation, " + rr.Solver + "]\n" + rr.Output
+			}
 		}
 	}
 }
